@@ -1102,105 +1102,132 @@ pub fn collect_typedefs(
         }
     }
 
-    for item in hir.toplevels.iter() {
-        if let hir::Def::StructDef(struct_def) = hir_table.def(*item) {
-            report_struct_containing_itself(env, diagnostics, &struct_def.name.to_ident_name());
-        }
-    }
+    let struct_names: Vec<String> = hir
+        .toplevels
+        .iter()
+        .filter_map(|item| match hir_table.def(*item) {
+            hir::Def::StructDef(struct_def) => Some(struct_def.name.to_ident_name()),
+            _ => None,
+        })
+        .collect();
+    report_structs_containing_themselves(env, diagnostics, &struct_names);
 }
 
 /// A struct that holds a value of its own type - directly, in a tuple, an array or a field of
 /// another struct - has no finite size (and no value). Behind `Vec`, `Ref`, an enum or a
 /// function type it is fine.
-fn report_struct_containing_itself(
+///
+/// Decided on the graph of struct *definitions* (an edge for every struct a field holds by value,
+/// an argument of a generic struct counting where that struct holds its parameter by value), so the
+/// search ends on cycles of any length and on instances that grow at every step
+/// (`struct A[T] { b: B[(T, T)] }  struct B[T] { a: A[(T, T)] }`).
+fn report_structs_containing_themselves(
     env: &PackageTypeEnv,
     diagnostics: &mut Diagnostics,
-    name: &str,
+    names: &[String],
 ) {
-    fn find_struct<'a>(env: &'a PackageTypeEnv, name: &str) -> Option<&'a env::StructDef> {
-        let ident = tast::TastIdent(name.to_string());
-        env.current()
-            .structs()
-            .get(&ident)
-            .or_else(|| env.deps.values().find_map(|dep| dep.structs().get(&ident)))
+    let mut defs: IndexMap<String, &env::StructDef> = IndexMap::new();
+    for (ident, def) in env.current().structs().iter() {
+        defs.insert(ident.0.clone(), def);
+    }
+    for dep in env.deps.values() {
+        for (ident, def) in dep.structs().iter() {
+            defs.entry(ident.0.clone()).or_insert(def);
+        }
     }
 
-    fn holds(
-        env: &PackageTypeEnv,
+    /// the structs and the type parameters a value of `ty` holds by value
+    fn held_by_value(
         ty: &tast::Ty,
-        target: &str,
-        visiting: &mut Vec<String>,
-    ) -> bool {
-        let (struct_name, args): (&str, &[tast::Ty]) = match ty {
+        holds_param: &IndexMap<String, Vec<bool>>,
+        structs: &mut Vec<String>,
+        params: &mut Vec<String>,
+    ) {
+        match ty {
             tast::Ty::TTuple { typs } => {
-                return typs.iter().any(|t| holds(env, t, target, visiting));
+                for t in typs.iter() {
+                    held_by_value(t, holds_param, structs, params);
+                }
             }
-            tast::Ty::TArray { elem, .. } => return holds(env, elem, target, visiting),
-            tast::Ty::TStruct { name } => (name.as_str(), &[]),
-            tast::Ty::TApp { ty, args } => match ty.as_ref() {
-                tast::Ty::TStruct { name } => (name.as_str(), args.as_slice()),
-                _ => return false,
-            },
-            _ => return false,
-        };
-        if struct_name == target {
-            return true;
+            tast::Ty::TArray { elem, .. } => held_by_value(elem, holds_param, structs, params),
+            tast::Ty::TParam { name } => params.push(name.clone()),
+            tast::Ty::TStruct { name } => structs.push(name.clone()),
+            tast::Ty::TApp { ty, args } => {
+                if let tast::Ty::TStruct { name } = ty.as_ref() {
+                    structs.push(name.clone());
+                    let held = holds_param.get(name);
+                    for (i, arg) in args.iter().enumerate() {
+                        if held.is_some_and(|h| h.get(i).copied().unwrap_or(false)) {
+                            held_by_value(arg, holds_param, structs, params);
+                        }
+                    }
+                }
+            }
+            _ => {}
         }
-        let key = format!("{:?}", ty);
-        if visiting.len() > 64 || visiting.contains(&key) {
-            return false;
-        }
-        let Some(def) = find_struct(env, struct_name) else {
-            return false;
-        };
-        let subst: IndexMap<String, tast::Ty> = def
-            .generics
-            .iter()
-            .zip(args.iter())
-            .map(|(param, arg)| (param.0.clone(), arg.clone()))
-            .collect();
-        visiting.push(key);
-        let found = def
-            .fields
-            .iter()
-            .any(|(_, field_ty)| holds(env, &substitute_params(field_ty, &subst), target, visiting));
-        visiting.pop();
-        found
     }
 
-    let Some(def) = find_struct(env, name) else {
-        return;
+    // which of its type parameters a generic struct holds by value: least fixed point
+    let mut holds_param: IndexMap<String, Vec<bool>> = defs
+        .iter()
+        .map(|(name, def)| (name.clone(), vec![false; def.generics.len()]))
+        .collect();
+    loop {
+        let mut changed = false;
+        for (name, def) in defs.iter() {
+            let mut params = Vec::new();
+            for (_, field_ty) in def.fields.iter() {
+                held_by_value(field_ty, &holds_param, &mut Vec::new(), &mut params);
+            }
+            for (i, generic) in def.generics.iter().enumerate() {
+                if !holds_param[name][i] && params.contains(&generic.0) {
+                    holds_param[name][i] = true;
+                    changed = true;
+                }
+            }
+        }
+        if !changed {
+            break;
+        }
+    }
+
+    let reaches = |field_ty: &tast::Ty, target: &str| -> bool {
+        let mut work = Vec::new();
+        held_by_value(field_ty, &holds_param, &mut work, &mut Vec::new());
+        let mut seen: Vec<String> = Vec::new();
+        while let Some(name) = work.pop() {
+            if name == target {
+                return true;
+            }
+            if seen.contains(&name) {
+                continue;
+            }
+            if let Some(def) = defs.get(&name) {
+                for (_, ty) in def.fields.iter() {
+                    held_by_value(ty, &holds_param, &mut work, &mut Vec::new());
+                }
+            }
+            seen.push(name);
+        }
+        false
     };
-    let mut visiting = Vec::new();
-    for (field, field_ty) in def.fields.iter() {
-        if holds(env, field_ty, name, &mut visiting) {
-            super::util::push_error(
-                diagnostics,
-                format!(
-                    "Struct {} contains itself in field {}: a value of it would have no finite size (put the field behind Vec, Ref or an enum)",
-                    name, field.0
-                ),
-            );
-            return;
-        }
-    }
-}
 
-fn substitute_params(ty: &tast::Ty, subst: &IndexMap<String, tast::Ty>) -> tast::Ty {
-    match ty {
-        tast::Ty::TParam { name } => subst.get(name).cloned().unwrap_or_else(|| ty.clone()),
-        tast::Ty::TTuple { typs } => tast::Ty::TTuple {
-            typs: typs.iter().map(|t| substitute_params(t, subst)).collect(),
-        },
-        tast::Ty::TArray { len, elem } => tast::Ty::TArray {
-            len: *len,
-            elem: Box::new(substitute_params(elem, subst)),
-        },
-        tast::Ty::TApp { ty, args } => tast::Ty::TApp {
-            ty: ty.clone(),
-            args: args.iter().map(|t| substitute_params(t, subst)).collect(),
-        },
-        _ => ty.clone(),
+    for name in names.iter() {
+        let Some(def) = defs.get(name) else {
+            continue;
+        };
+        for (field, field_ty) in def.fields.iter() {
+            if reaches(field_ty, name) {
+                super::util::push_error(
+                    diagnostics,
+                    format!(
+                        "Struct {} contains itself in field {}: a value of it would have no finite size (put the field behind Vec, Ref or an enum)",
+                        name, field.0
+                    ),
+                );
+                break;
+            }
+        }
     }
 }
 
